@@ -252,3 +252,158 @@ def check_slice_stop_index(ctx, rule="BOUNDS"):
                    f"`{U(bad[0])[:60] if bad else ''}` indexes the per-cell array `{bad[1][:40] if bad else ''}` with a slice's `.stop` (one past the last cell): for a cluster that reaches the last cell "
                    "of the axis this is out of range and IndexError escapes the locator (a dense region touching the outer boundary, a homogeneous field above the threshold)")
     return n
+
+
+# -------------------------------------------------------------------------------------------------- round 11
+def _atoms(test, value):
+    """[(text, truth)] atomic facts implied by ``test`` having the truth value ``value``"""
+    from ..astutil import U
+    if isinstance(test, ast.UnaryOp) and isinstance(test.op, ast.Not):
+        return _atoms(test.operand, not value)
+    if isinstance(test, ast.BoolOp):
+        if (isinstance(test.op, ast.And) and value) or (isinstance(test.op, ast.Or) and not value):
+            out = [(U(test), value)]
+            for v in test.values:
+                out += _atoms(v, value)
+            return out
+    return [(U(test), value)]
+
+
+def possibly_unbound(model, fi, limit=3000):
+    """[(name, use node, description)] — reads of a local variable that some *feasible-looking* acyclic path reaches without
+    passing any binding of the name (UnboundLocalError at run time).  Two stages: a definite-assignment dataflow (must
+    analysis over the statement CFG, exception edges included with the state *before* the raising statement) selects the
+    candidates; each candidate is then confirmed by path enumeration, discarding paths that decide the same test text both
+    ways while none of its names was rebound in between (correlated guards) and paths that run a loop zero times when the loop
+    iterates over a literal, non-empty sequence."""
+    from ..astutil import view, U, names_in
+    from ..cfg import CFG, walk_no_nested
+
+    fv = view(model, fi)
+    cfg = fv.cfg
+    locals_ = set()
+    for n in cfg.nodes:
+        locals_.update(x for x in CFG.defs_of(n) if "." not in x)
+    params = set(fi.all_params)
+    a_ = fi.node.args
+    params |= {x.arg for x in (a_.vararg, a_.kwarg) if x is not None} | {x.arg for x in a_.posonlyargs + a_.args + a_.kwonlyargs}
+    declared = set()
+    for x in walk_no_nested(fi.node):
+        if isinstance(x, (ast.Global, ast.Nonlocal)):
+            declared.update(x.names)
+    locals_ -= params | declared
+    if not locals_:
+        return []
+    full = frozenset(locals_)
+    IN = {n: full for n in cfg.nodes}
+    IN[cfg.entry] = frozenset()
+    changed = True
+    while changed:
+        changed = False
+        for n in cfg.nodes:
+            if n is cfg.entry:
+                continue
+            acc = None
+            for p, lab in n.pred:
+                out = IN[p] if lab == "exc" else IN[p] | frozenset(x for x in CFG.defs_of(p) if x in locals_)
+                acc = out if acc is None else acc & out
+            acc = acc if acc is not None else full
+            if acc != IN[n]:
+                IN[n] = acc
+                changed = True
+
+    def reads(node):
+        roots = fv._roots(node)
+        out = []
+        for r in roots:
+            for x in walk_no_nested(r):
+                if isinstance(x, ast.Name) and isinstance(x.ctx, ast.Load) and x.id in locals_:
+                    out.append(x)
+        return out
+
+    found = []
+    for n in cfg.nodes:
+        if n.stmt is None:
+            continue
+        own_defs = set(CFG.defs_of(n))
+        for x in reads(n):
+            if x.id in IN[n]:
+                continue
+            # comprehension / lambda locals are not function locals
+            if any(isinstance(c, (ast.ListComp, ast.SetComp, ast.DictComp, ast.GeneratorExp)) and any(x.id in names_in(g.target) for g in c.generators) for c in ast.walk(n.stmt)):
+                continue
+            # a walrus inside a comprehension binds the name while the comprehension runs
+            if any(isinstance(c, (ast.ListComp, ast.SetComp, ast.DictComp, ast.GeneratorExp)) and any(isinstance(w, ast.NamedExpr) and w.target.id == x.id for w in ast.walk(c))
+                   and any(y is x for y in ast.walk(c)) for c in ast.walk(n.stmt)):
+                continue
+            # confirm by paths
+            try:
+                paths = cfg.paths(cfg.entry, {n}, limit=limit)
+            except RuntimeError:
+                continue
+            for p in paths:
+                if p[-1][0] is not n:
+                    continue
+                bound = False
+                decided = {}
+                feasible = True
+                for k, (node, _lab) in enumerate(p[:-1]):
+                    nxt = p[k + 1][1]
+                    if node.kind == "test" and node.stmt is not None and nxt in ("T", "F"):
+                        for txt, val in _atoms(node.stmt, nxt == "T"):
+                            if txt in decided and decided[txt] != val:
+                                feasible = False
+                                break
+                            decided[txt] = val
+                        if not feasible:
+                            break
+                    if node.kind == "loop" and nxt == "done" and not any(q is node for q, _ in p[:k]) and node.stmt is not None:
+                        # acyclic paths leave a loop only without entering it; whether its sequence can be empty is not known here
+                        # (EMPTY decides that for the sequences that matter), so everything the loop body may bind counts as bound:
+                        # this rule only speaks about branches
+                        inner = set()
+                        for sub in ast.walk(node.stmt):
+                            if isinstance(sub, ast.Name) and isinstance(sub.ctx, ast.Store):
+                                inner.add(sub.id)
+                        if x.id in inner:
+                            bound = True
+                            break
+                    ds = CFG.defs_of(node)
+                    if nxt != "exc" and x.id in ds:
+                        bound = True
+                        break
+                    for d in ds:
+                        for t in [t for t in decided if d in names_in(ast.parse(t, mode="eval"))]:
+                            decided.pop(t, None)
+                if feasible and not bound:
+                    found.append((x.id, x, "path: " + " → ".join(f"{q.kind}@{q.line}{'[' + lab + ']' if lab else ''}" for q, lab in p[-6:])))
+                    break
+    return found
+
+
+def check_unbound(ctx, rule="UNBOUND"):
+    """no function of the package reads a local variable on a path on which it was never bound (UnboundLocalError escapes the
+    public entry points for exactly the inputs that take that path, e.g. an image whose clusters all miss the origin)"""
+    m = ctx.model
+    n_fn = 0
+    bad_all = []
+    for fi in m.all_functions():
+        if not fi.qualname.startswith("droplets."):
+            continue
+        try:
+            bad = possibly_unbound(m, fi)
+        except Exception:  # a construct the CFG builder does not model: not decided for this function
+            continue
+        n_fn += 1
+        seen = set()
+        for name, use, desc in bad:
+            if (fi.qualname, name) in seen:
+                continue
+            seen.add((fi.qualname, name))
+            bad_all.append((fi, name, use, desc))
+    for fi, name, use, desc in bad_all:
+        ctx.violate(rule, f"{fi.qualname}:{name}", (fi, use), f"`{name}` is read here although a path reaches this statement without binding it ({desc}): UnboundLocalError for the inputs "
+                    "that take this path — the analysis aborts instead of returning a result")
+    if not bad_all:
+        ctx.hold(rule, "droplets:locals-bound", next(iter(m.all_functions())), f"every read of a local variable in {n_fn} functions is preceded by a binding on every branch path")
+    return n_fn
